@@ -11,6 +11,9 @@ CLAUSES = {
     "Cl_Len": "every series has exactly N entries", "Cl_TimeGrid": "time[k] = k * step length",
     "Cl_MassBal": "m[k+1] = m[k] - (J1[k]+J2[k]) A dt", "Cl_CompBal": "m[k+1] x[k+1] = m[k] x[k] - J1[k] A dt",
     "KnownEvent": "steps reported in order, none missing",
+    "Ref_StepFluxes": "DRIFT: reported fluxes = the specification's FluxSolver over its reference thermodynamics at the reported state",
+    "Ref_IdealPermeance": "DRIFT: ideal models' permeances = the specification's Membrane at the reported temperature",
+    "Ref_Heats": "DRIFT: latent heats / heat capacities = the specification's Component formulas",
 }
 MANIFEST = {
     "text": "TLC model-checks whole runs of the Process state machine (Start/Step/Raise/Finish with the look-ahead state and its pop) with "
@@ -27,6 +30,12 @@ def leg_a(ctx):
 
 
 def run(ctx, pool):
-    tw, stats = pc.record_processes(ctx, ctx.n(600, 20000), ctx.n(48, 1500), {"with_std": False})
+    tw, stats = pc.record_processes(ctx, ctx.n(600, 20000), ctx.n(48, 1500), {"with_std": False, "with_ref": True})
     res = core.validate_traces(None, ctx, tw, pool, "Trace_Process.tla", "Trace_Process_C01.cfg")
     return pc.finish(res, tw, stats, CLAUSES, pc.RULE)
+
+
+def classify(v, kf):
+    if v["invariant"].startswith("Ref_"):
+        return ("drift", None)
+    return ("violation", None)
